@@ -1,39 +1,248 @@
 package trzsz
 
-import "context"
+// C11 — a transfer cannot hang: faults end it with an error, and no worker of the failed transfer is left running.
+// The real joining functions sendFileDataV2 / recvFileDataV2 run with ALL their pipeline stages as threads of the
+// executor; the harness plays the peer (acks / data frames that stop at a solver-chosen point), the local file
+// (read / write error at a solver-chosen call) and the passing of time (armed timers eventually fire).
 
-func verifNondetByte() byte
-func verifNondetInt() int
-func verifNondetBool() bool
-func verifNondetRange(lo, hi int) int
-func verifAssume(bool)
-func verifAssert(bool, string)
-func verifReach(string)
-func verifExpectBlock(int)
-func verifQuiesce()
-func verifLiveThreads() int
+import (
+	"errors"
+	"io"
+	"os"
+)
 
-func zzH_C11_encode() {
-	t := newTransfer(nil, nil, false, nil)
-	t.transferConfig.Binary = true
-	t.bufferSize.Store(4)
-	c, cancel := context.WithCancelCause(context.Background())
-	ctx := &pipelineContext{c, cancel, make(chan struct{}, 1)}
-	fileDataChan := make(chan []byte, 100)
-	sendDataChan := t.pipelineEncodeData(ctx, fileDataChan, false)
-	fileDataChan <- make([]byte, 6)
-	verifQuiesce()
-	acked := verifNondetBool()
-	if acked {
-		// the ack stage saw the chunk's ack (what pipelineRecvAck does in the init phase)
-		t.bufInitWG.Done()
-		verifReach("acked")
-	} else {
-		verifReach("peer-silent")
+type zzSink11 struct {
+	data   []byte
+	failAt int
+	writes int
+}
+
+func (s *zzSink11) Write(p []byte) (int, error) {
+	s.writes++
+	if s.failAt > 0 && s.writes >= s.failAt {
+		return 0, errors.New("connection write error")
 	}
-	ctx.cancel(simpleTrzszError("other stage failed"))
-	close(fileDataChan)
+	s.data = append(s.data, p...)
+	return len(p), nil
+}
+
+// zzFile11: a source file of `size` bytes that hands out `chunk` bytes per Read and fails at the failAt-th Read
+// (0 = never); with short != 0 it reaches EOF that many bytes early (the file shrank).
+type zzFile11 struct {
+	size, pos    int64
+	chunk        int
+	reads        int
+	failAt       int
+	short        int64
+	closed       bool
+}
+
+func (f *zzFile11) Read(p []byte) (int, error) {
+	f.reads++
+	if f.failAt > 0 && f.reads >= f.failAt {
+		return 0, errors.New("read error")
+	}
+	left := f.size - f.short - f.pos
+	if left <= 0 {
+		return 0, io.EOF
+	}
+	n := f.chunk
+	if n > len(p) {
+		n = len(p)
+	}
+	if int64(n) > left {
+		n = int(left)
+	}
+	for i := 0; i < n; i++ {
+		p[i] = 'd'
+	}
+	f.pos += int64(n)
+	return n, nil
+}
+func (f *zzFile11) Close() error     { f.closed = true; return nil }
+func (f *zzFile11) getFile() *os.File { return nil }
+func (f *zzFile11) getSize() int64   { return f.size }
+
+// zzFrames11 parses the DATA frames in what the sender wrote so far and returns the payload length of frame k (or -1).
+func zzFrameLen11(data []byte, binary bool, k int) int {
+	pos := 0
+	for idx := 0; ; idx++ {
+		if pos+6 > len(data) || string(data[pos:pos+6]) != "#DATA:" {
+			return -1
+		}
+		pos += 6
+		n := 0
+		if binary {
+			for pos < len(data) && data[pos] != '\n' {
+				n = n*10 + int(data[pos]-'0')
+				pos++
+			}
+			if pos >= len(data) {
+				return -1
+			}
+			pos += 1 + n
+			if pos > len(data) {
+				return -1
+			}
+		} else {
+			for pos < len(data) && data[pos] != '\n' {
+				n++
+				pos++
+			}
+			if pos >= len(data) {
+				return -1
+			}
+			pos++
+		}
+		if idx == k {
+			return n
+		}
+	}
+}
+
+func zzItoa11(v int) string {
+	if v == 0 {
+		return "0"
+	}
+	var b []byte
+	for v > 0 {
+		b = append([]byte{byte('0' + v%10)}, b...)
+		v /= 10
+	}
+	return string(b)
+}
+
+func zzSettle11() {
+	for i := 0; i < 3; i++ {
+		verifAdvanceTime() // every armed timeout fires
+		verifQuiesce()
+	}
+}
+
+// sender: peer acknowledges the first ACKS frames (solver's choice), then falls silent / answers wrongly; the source
+// file may fail or shrink; the connection may fail
+func zzH_C11_send() {
+	sink := &zzSink11{failAt: verifNondetRange(0, verifBound("WFAIL"))}
+	t := newTransfer(sink, nil, false, nil)
+	t.transferConfig.Protocol = 2 + verifNondetRange(0, 1)*2 // 2 or 4
+	t.transferConfig.Timeout = 1
+	t.transferConfig.Binary = verifBound("BINARY") != 0
+	t.transferConfig.MaxBufSize = 8
+	t.bufferSize.Store(4)
+	size := int64(verifBound("SIZE"))
+	file := &zzFile11{size: size, chunk: 3, failAt: verifNondetRange(0, verifBound("RFAIL"))}
+	if verifNondetBool() {
+		file.short = 1
+	}
+	done := false
+	var rerr error
+	go func() {
+		_, rerr = t.sendFileDataV2(file, nil)
+		done = true
+	}()
 	verifQuiesce()
-	verifAssert(verifLiveThreads() == 0, "encode stage still blocked after cancellation")
-	_ = sendDataChan
+	acks := verifNondetRange(0, verifBound("ACKS"))
+	step := 0
+	for k := 0; k < acks; k++ {
+		n := zzFrameLen11(sink.data, t.transferConfig.Binary, k)
+		if n < 0 {
+			break // the sender has not produced that frame (it is waiting or has failed)
+		}
+		step += n
+		if verifNondetBool() {
+			t.addReceivedData([]byte("#SUCC:"+zzItoa11(n+1)+"/"+zzItoa11(step)+"\n"), false) // wrong length echo
+			verifReach("bad-ack")
+		} else {
+			t.addReceivedData([]byte("#SUCC:"+zzItoa11(n)+"/"+zzItoa11(step)+"\n"), false)
+		}
+		verifQuiesce()
+	}
+	if verifNondetBool() {
+		t.addReceivedData([]byte("#SUCC:"+zzItoa11(int(size))+"\n"), false) // final "all saved" ack
+		verifQuiesce()
+	}
+	zzSettle11() // the peer is silent from here on
+	verifAssert(done, "sendFileDataV2 did not return although the peer has been silent beyond the timeout")
+	verifAssertNoLiveThreads("worker left running after the transfer function returned")
+	if rerr == nil {
+		verifReach("success")
+	} else {
+		verifReach("error")
+	}
+}
+
+type zzWriter11 struct {
+	data   []byte
+	failAt int
+	writes int
+	closed bool
+}
+
+func (w *zzWriter11) Write(p []byte) (int, error) {
+	w.writes++
+	if w.failAt > 0 && w.writes >= w.failAt {
+		return 0, errors.New("disk write error")
+	}
+	w.data = append(w.data, p...)
+	return len(p), nil
+}
+func (w *zzWriter11) Close() error     { w.closed = true; return nil }
+func (w *zzWriter11) getFile() *os.File { return nil }
+
+// receiver: the peer sends FRAMES data frames (solver's choice how many, and whether the finish frame follows),
+// then falls silent; the destination may fail; the connection may fail
+func zzH_C11_recv() {
+	sink := &zzSink11{failAt: verifNondetRange(0, verifBound("WFAIL"))}
+	t := newTransfer(sink, nil, false, nil)
+	t.transferConfig.Protocol = 2 + verifNondetRange(0, 1)*2
+	t.transferConfig.Timeout = 1
+	t.transferConfig.Binary = true
+	size := int64(verifBound("SIZE"))
+	w := &zzWriter11{failAt: verifNondetRange(0, verifBound("DFAIL"))}
+	done := false
+	var rerr error
+	go func() {
+		_, rerr = t.recvFileDataV2(w, size, nil)
+		done = true
+	}()
+	verifQuiesce()
+	frames := verifNondetRange(0, verifBound("FRAMES"))
+	sent := 0
+	for k := 0; k < frames; k++ {
+		n := 2
+		if int64(sent+n) > size && verifNondetBool() {
+			n = int(size) - sent // exactly the announced size
+		}
+		if n <= 0 {
+			break
+		}
+		frame := []byte("#DATA:" + zzItoa11(n) + "\n")
+		for i := 0; i < n; i++ {
+			frame = append(frame, 'p')
+		}
+		cut := len(frame)
+		if k == 0 {
+			cut = verifNondetRange(1, len(frame)) // the first frame arrives in two reads, cut anywhere
+		}
+		t.addReceivedData(frame[:cut], false)
+		if cut < len(frame) {
+			t.addReceivedData(frame[cut:], false)
+		}
+		sent += n
+		verifQuiesce()
+	}
+	if verifNondetBool() {
+		t.addReceivedData([]byte("#DATA:0\n"), false) // finish frame
+		verifQuiesce()
+	}
+	zzSettle11()
+	verifAssert(done, "recvFileDataV2 did not return although the peer has been silent beyond the timeout")
+	verifAssertNoLiveThreads("worker left running after the transfer function returned")
+	verifAssert(w.closed, "destination file not closed")
+	if rerr == nil {
+		verifAssert(int64(len(w.data)) == size, "success reported for a file of the wrong length")
+		verifReach("success")
+	} else {
+		verifReach("error")
+	}
 }
